@@ -57,8 +57,9 @@ Definition linear_action (euler_fn : bogo -> Mx * Mx * Mx) (G : bogo) : bogo :=
 Hypothesis mmul_assoc : forall a b c, a *m (b *m c) = a *m b *m c.
 Hypothesis mmul_O_r : forall a, a *m O = O.
 Hypothesis mmul_O_l : forall a, O *m a = O.
-Hypothesis madd_O_r : forall a, a +m O = a.
-Hypothesis madd_O_l : forall a, O +m a = a.
+(* only sums whose summands are products occur *)
+Hypothesis madd_O_r : forall a b, a *m b +m O = a *m b.
+Hypothesis madd_O_l : forall a b, O +m a *m b = a *m b.
 Hypothesis conj_O : conj O = O.
 
 Lemma linear_action_of_factors : forall U D V,
